@@ -164,6 +164,28 @@ def oracle(ctx):
         if want + '.service' not in names or (want + '.service') not in req:
             res.oracle_failures.append(dict(op='e2e', input=files, impl_output=dict(services=sorted(names), requires_of_r=req, exit=r['exit']),
                                             oracle_expectation=f'the volume\'s service is {want}.service (the last ServiceName= in merge order, else the default) and r.service requires it'))
+    # … the same for the image a .build publishes (ImageTag= is a list: an empty assignment in a drop-in discards the main file's tags)
+    bcases = []
+    for _ in range(40 if ctx.thorough else 10):
+        d1, d2 = rnd.choice(['d0', 'd1']), rnd.choice(['d0', 'd1'])
+        second = rnd.choice(['ImageTag=\nImageTag=localhost/app:v2\n', 'ImageTag=localhost/app:v2\n', 'Label=x=y\n'])
+        files = {'d0/b.build': '[Build]\nFile=/opt/Containerfile\nImageTag=localhost/app:v1\n', 'd1/r.container': '[Container]\nImage=b.build\n',
+                 f'{d1}/b.build.d/10-a.conf': '[Build]\n' + rnd.choice(['Label=a=b\n', 'ImageTag=\nImageTag=localhost/app:mid\n']),
+                 f'{d2}/b.build.d/20-b.conf': '[Build]\n' + second}
+        first10 = files[f'{d1}/b.build.d/10-a.conf']
+        tags = ['localhost/app:v1']
+        for t in (first10, files[f'{d2}/b.build.d/20-b.conf']):
+            for l in t.split('\n'):
+                if l.startswith('ImageTag='):
+                    tags = [] if l == 'ImageTag=' else tags + [l[9:]]
+        bcases.append((files, tags[0]))
+    for (files, want), r in zip(bcases, _e2e.pmap(lambda c: _e2e.run_case(c[0], dirs=('d0', 'd1'), dry_run=True), bcases)):
+        res.oracle_evals += 1
+        names = {os.path.basename(k): v for k, v in r['printed'].items()}
+        ex = re.findall(r'^ExecStart=(.*)$', names.get('r.service', ''), re.M)
+        if not ex or not ex[-1].rstrip().endswith(' ' + want):
+            res.oracle_failures.append(dict(op='e2e', input=files, impl_output=dict(exit=r['exit'], run=ex[-1][-120:] if ex else None),
+                                            oracle_expectation=f'the container runs the image the merged .build publishes: {want} (its first tag after the last empty assignment, in merge order)'))
     # what is merged is every assignment of every surviving drop-in, after the main file, in name order — also an assignment that
     # repeats an older value (A, B, A; A, reset, A): histories of that shape cut into main file and drop-ins, through the real loader
     import filespell
